@@ -60,6 +60,10 @@ func unmarshalBytesToJSONObject(data []byte) (gjson.Result, error) {
 		return gjson.Result{}, errorsmod.Wrap(errortypes.ErrJSONUnmarshal, "failed to JSON unmarshal data as object")
 	}
 
+	if err := rejectDuplicateKeys(payload); err != nil {
+		return gjson.Result{}, err
+	}
+
 	return payload, nil
 }
 
